@@ -98,7 +98,7 @@ class StageResult:
         self.extra = {}
 
     def add(self, spec, r, max_samples=3):
-        self.evaluations += 1
+        self.evaluations += r.get("evals", 1)
         if r.get("nontrivial"):
             self.nontrivial_keys.add(r.get("key") or spec_hash(spec))
             if len(self.samples) < max_samples:
@@ -281,6 +281,7 @@ def run_check(check: Check, tier, seed, budget_s=None):
             rr.failures = []
             results.append(rr)
         for si, st in enumerate(stages):
+            t_stage = time.time()
             if time.time() > deadline:
                 sr = StageResult(st.name)
                 sr.budget_hit = True
@@ -309,6 +310,7 @@ def run_check(check: Check, tier, seed, budget_s=None):
                     sr.merge(p)
                 sr.extra["workers"] = nw
                 sr.extra["jobs"] = jobs
+            sr.extra["wall_s"] = round(time.time() - t_stage, 1)
             results.append(sr)
             # ---- bucket failures
             buckets = {}
